@@ -267,3 +267,90 @@ _register0 = register
 def register(R):  # noqa: F811
     _register0(R)
     register_lazy(R)
+
+
+# ---------------------------------------------------------------------------
+# NestTrees (index indirection used for slices / filters) and Populations.__getitem__
+def register_nest(R):
+    from pyvc.values import zint
+
+    def nest_obj(S):
+        from swcgeom.core.population import NestTrees
+
+        trees = Opaque(z3.Int(fresh_name("trees")), TREES_PROTO)
+        idx = S.plist("int", name="idx")
+        return S.obj(NestTrees, trees=trees, idx=idx)
+
+    def nest_init(one_shot):
+        def f(S):
+            from swcgeom.core.population import NestTrees
+
+            trees = Opaque(z3.Int(fresh_name("trees")), TREES_PROTO)
+            src = S.plist("int", name="arg")
+            return dict(self=S.obj(NestTrees), trees=trees, idx=Iter(src) if one_shot else src, members=src)
+
+        return f
+
+    def init_post(E, v, o):
+        s, src = v["self"], v["members"]
+        L = s.fields.get("idx")
+        if not isinstance(L, PList) or L is src or not E.is_same(s.fields.get("trees"), v["trees"]):
+            return False
+        k = z3.Int(fresh_name("k"))
+        n = zint(src.n)
+        Ln = zint(len(L.items)) if L.items is not None else zint(L.n)
+        get = (lambda t: z3.Select(L.cols[0], t)) if L.items is None else None
+        if get is None:
+            return False
+        return z3.And(Ln == n, z3.ForAll([k], z3.Implies(z3.And(k >= 0, k < n), get(k) == z3.Select(src.cols[0], k))))
+
+    R.add(f"{POP}:NestTrees.__init__", prop="C19",
+          variants={"index-list": nest_init(False), "one-shot-iterable": nest_init(True)},
+          ensures=[("keeps-the-container-and-a-private-list-of-the-indices-in-order", init_post)])
+
+    R.add(f"{POP}:NestTrees.__len__", prop="C19", setup=lambda S: dict(self=nest_obj(S)), returns="int",
+          ensures=["number-of-selected-indices :: result == len_(self.idx)"])
+
+    def get_post(E, v, o):
+        s = v["self"]
+        L = s.fields["idx"]
+        key = to_z3(o["key"], "int")
+        n = zint(L.n)
+        pos = z3.If(key < 0, key + n, key)
+        return z3.And(key >= -n, key < n, to_z3(v["result"], "ref") == ITEM(s.fields["trees"].z, z3.Select(L.cols[0], pos)))
+
+    R.add(f"{POP}:NestTrees.__getitem__", prop="C19",
+          setup=lambda S: dict(self=nest_obj(S), key=S.int("key")), returns="ref",
+          raises={"IndexError": ("out-of-range-only", lambda E, v, o: z3.Or(to_z3(v["key"], "int") < -zint(v["self"].fields["idx"].n), to_z3(v["key"], "int") >= zint(v["self"].fields["idx"].n)))},
+          ensures=[("the-tree-at-the-selected-index-of-the-underlying-container", get_post)],
+          options=dict(strict_index=False))
+
+    # Populations.__getitem__(int): one tree per population, in population order
+    def pops_obj(S):
+        from swcgeom.core.population import Populations
+
+        ps = S.plist("ref", name="populations")
+        ps.proto = TREES_PROTO
+        return S.obj(Populations, populations=ps, len=S.int("len"), labels=PList([]))
+
+    def pops_get_post(E, v, o):
+        r, ps = v["result"], v["self"].fields["populations"]
+        if not isinstance(r, PList) or r.items is not None:
+            return False
+        m = z3.Int(fresh_name("m"))
+        key = to_z3(o["key"], "int")
+        return z3.And(zint(r.n) == zint(ps.n), z3.ForAll([m], z3.Implies(z3.And(m >= 0, m < zint(ps.n)), z3.Select(r.cols[0], m) == ITEM(z3.Select(ps.cols[0], m), key))))
+
+    R.add(f"{POP}:Populations.__getitem__", prop="C19",
+          setup=lambda S: dict(self=pops_obj(S), key=S.int("key")),
+          ensures=[("row-of-the-key-th-tree-of-every-population-in-order", pops_get_post)])
+    R.add(f"{POP}:Populations.__len__", prop="C19", setup=lambda S: dict(self=pops_obj(S)), returns="int",
+          ensures=["the-recorded-minimum-length :: result == self.len"])
+
+
+_reg19 = register
+
+
+def register(R):  # noqa: F811
+    _reg19(R)
+    register_nest(R)
